@@ -640,3 +640,4 @@ PROPS['C06']['kani']['quick'] = PROPS['C06']['kani']['quick'] + ['cw/update_outs
 PROPS['C06']['kani_meta'].update(BND(['cw/update_outside_region_n2']))
 PROPS['C06']['verus_only']['weights'] = PROPS['C06']['verus_only']['weights'] + [r'CacheWeight::update$']
 PROPS['C06']['floor'] = {'quick': 34, 'thorough': 34}
+
